@@ -78,7 +78,16 @@ func (n *Net) doCanned(c *Call, req *http.Request) (*http.Response, error) {
 	}
 	e.mu.Unlock()
 	_ = e.Down.Push(can.Body, true)
-	if drain {
+	if can.Status == http.StatusSwitchingProtocols && !c.K.HTTP2 {
+		// net/http hands the connection itself over as the body of a 101
+		// answer: it has no end, and reading it is not guarded by the request's
+		// context any more. Only Close lets go of it.
+		e.mu.Lock()
+		e.HandlerDone = false
+		e.bodyIsConn = true
+		e.updateDeaf()
+		e.mu.Unlock()
+	} else if drain {
 		endErr := can.EndErr
 		n.S.Go(c.ID+"/server.drain", func(*core.Task) {
 			// the server: reads the request to its end, then ends the response
